@@ -46,7 +46,7 @@ func dedupeSets(d *VDesc, atGeneration bool) {
 		if !exact {
 			// two indistinguishable unknown-containing members would be two members with one and the
 			// same path; the generated value keeps one of them
-			k = "inexact:" + e.String()
+			k = "inexact:" + fp(e.Build())
 		}
 		if seen[k] {
 			continue
@@ -315,7 +315,7 @@ func simC19Walk(c *Ctx) {
 		observe(c, res, "Transform")
 		dedupeSets(newRoot, false)
 		want := newRoot.Build()
-		if !res.RawEquals(want) {
+		if !sameModuloSetOrder(res, want) {
 			c.Fail("C19", "transform-replace-disturbed", "transform-replace:"+kindNames[n.d.T.K],
 				"replacing the member at %s by %s gave %s, want the original with exactly that member replaced: %s", n.key, repl, safeGoString(res), newRoot)
 		}
@@ -373,7 +373,7 @@ func simC19Walk(c *Ctx) {
 					}
 				}
 				observe(c, v, "Transform callback")
-				if !v.RawEquals(nodes[i].d.Build()) {
+				if !sameModuloSetOrder(v, nodes[i].d.Build()) {
 					c.Fail("C19", "transform-wrong-member", "transform-rebuilt-differs:"+kindNames[nodes[i].d.T.K], "under an identity transformation the rebuilt member at %s is %s, want %s", key, safeGoString(v), nodes[i].d)
 				}
 				return v, nil
@@ -392,7 +392,7 @@ func simC19Walk(c *Ctx) {
 			c.Fail("C19", "transform-spurious-error", "transform-spurious-error", "identity Transform returned %v", terr)
 		}
 		observe(c, res, "Transform")
-		if !res.RawEquals(root) {
+		if !sameModuloSetOrder(res, root) {
 			c.Fail("C19", "transform-identity-differs", "transform-identity:"+kindNames[d.T.K], "an identity transformation returned %s for %s", safeGoString(res), d)
 		}
 		for i := range nodes {
@@ -414,7 +414,7 @@ func simC19Walk(c *Ctx) {
 	}
 	plain := cloneDesc(d)
 	plain.stripMarksDeep()
-	if !u.RawEquals(plain.Build()) {
+	if !sameModuloSetOrder(u, plain.Build()) {
 		c.Fail("C19", "unmark-changed-value", "unmark-changed-value", "UnmarkDeepWithPaths changed more than the marks: %s vs %s", safeGoString(u), plain)
 	}
 	gotPVM := map[string]string{}
@@ -450,7 +450,7 @@ func simC19Walk(c *Ctx) {
 		back := u.MarkWithPaths(perm)
 		c.API("MarkWithPaths")
 		observe(c, back, "MarkWithPaths")
-		if !back.RawEquals(root) {
+		if !sameModuloSetOrder(back, root) {
 			c.Fail("C19", "remark-differs", "remark-differs", "removing marks with their paths and re-applying them gave %s, the original is %s", safeGoString(back), d)
 		}
 	}
@@ -476,7 +476,7 @@ func simC19Walk(c *Ctx) {
 	uan := cty.UnknownAsNull(u)
 	c.API("UnknownAsNull")
 	observe(c, uan, "UnknownAsNull")
-	if !uan.RawEquals(nulled.Build()) {
+	if !sameModuloSetOrder(uan, nulled.Build()) {
 		c.Fail("C19", "unknown-as-null", "unknown-as-null", "UnknownAsNull(%s) = %s, want %s", plain, safeGoString(uan), nulled)
 	}
 	if len(nodes) > 1 {
@@ -943,4 +943,65 @@ func simC19PathSets(c *Ctx) {
 	}
 	c.NonTrivial()
 	_ = sort.Strings
+}
+
+// sameModuloSetOrder is raw equality (types, marks, refinements, members) in which the members
+// of a set are compared as a multiset: the iteration order of sets holding unknowns or capsules
+// depends on insertion order, which a rebuilt value need not share.
+func sameModuloSetOrder(a, b cty.Value) bool {
+	if !a.Type().Equals(b.Type()) {
+		return false
+	}
+	ua, ma := a.Unmark()
+	ub, mb := b.Unmark()
+	if marksKey(ma) != marksKey(mb) {
+		return false
+	}
+	if ua.IsNull() || ub.IsNull() || !ua.IsKnown() || !ub.IsKnown() {
+		return fp(ua) == fp(ub)
+	}
+	ty := ua.Type()
+	switch {
+	case ty.IsSetType():
+		as, bs := ua.AsValueSlice(), ub.AsValueSlice()
+		if len(as) != len(bs) {
+			return false
+		}
+		used := make([]bool, len(bs))
+	next:
+		for _, x := range as {
+			for j, y := range bs {
+				if !used[j] && sameModuloSetOrder(x, y) {
+					used[j] = true
+					continue next
+				}
+			}
+			return false
+		}
+		return true
+	case ty.IsListType() || ty.IsTupleType():
+		as, bs := ua.AsValueSlice(), ub.AsValueSlice()
+		if len(as) != len(bs) {
+			return false
+		}
+		for i := range as {
+			if !sameModuloSetOrder(as[i], bs[i]) {
+				return false
+			}
+		}
+		return true
+	case ty.IsMapType() || ty.IsObjectType():
+		am, bm := ua.AsValueMap(), ub.AsValueMap()
+		if len(am) != len(bm) {
+			return false
+		}
+		for k, x := range am {
+			y, ok := bm[k]
+			if !ok || !sameModuloSetOrder(x, y) {
+				return false
+			}
+		}
+		return true
+	}
+	return ua.RawEquals(ub)
 }
